@@ -1,7 +1,9 @@
 """C09 Lock: mutual exclusion, re-entrancy, FIFO hand-off, always released."""
+from .. import mixed
 from ..faults import sweep
 
 ID = "C09"
+MIXED_SHARE = 0.2
 LEVEL = "fault_enumeration"
 RULE = ("seeded scenarios of 2-5 contenders x 1-2 locks (re-entrant nesting <= 3, holds of 0-3 "
         "postponements or a dyadic delay, same-turn arrivals, re-requests, availability probes); "
@@ -34,6 +36,9 @@ def _hold(rng, lock_index, n_locks, depth):
 
 
 def generate(rng, tier):
+    if rng.random() < MIXED_SHARE:
+        # the primitive inside blocks of the other primitives (usimdst/mixed.py)
+        return mixed.generate(rng, ID)
     n_locks = rng.choice([1, 1, 2])
     n_actors = rng.randint(2, 5)
     resources = {"L%d" % i: {"kind": "lock"} for i in range(n_locks)}
@@ -68,6 +73,8 @@ def generate(rng, tier):
 
 def explore(case, base, rng, tier, one):
     victims = [a["name"] for a in case["scenario"]["actors"] if a["name"] != "zprobe"]
+    if case.get("family") == "mixed":
+        victims = mixed.victims(case)
     sweep(case, base, rng, one, victims, ("cancel", "interrupt", "close"),
           BUDGET[tier]["per_group"], pairs=BUDGET[tier]["per_group"])
 
